@@ -16,6 +16,36 @@ def showBNat : Except BErr Nat → String
   | .ok r => s!"ok {r}"
   | .error e => showBErr e
 
+/-- parse the operations of a `hist` request: `i incr size factor pmin` | `d size factor pmin output` | `s` -/
+def pHistOps : List String → Option (List Op)
+  | [] => some []
+  | "i" :: a :: b :: c :: d :: rest =>
+    match allNat [a, b, c, d], pHistOps rest with
+    | some [a, b, c, d], some ops => if a < 2 ^ 64 then some (.inc a b c d :: ops) else none
+    | _, _ => none
+  | "d" :: a :: b :: c :: d :: rest =>
+    match allNat [a, b, c, d], pHistOps rest with
+    | some [a, b, c, d], some ops => if d < 2 ^ 64 then some (.dec a b c d :: ops) else none
+    | _, _ => none
+  | "s" :: rest => (pHistOps rest).map (fun ops => .settle :: ops)
+  | _ => none
+
+def histLabel (s : Settle) : Op → String
+  | .inc i sz f p => match increaseCharge bfeeUnit i sz f p s.recorded with
+    | .ok (a, e, _) => s!"i:{a}:{e}" | .error _ => "i:err"
+  | .dec sz f p out => match decreaseRecord bfeeUnit sz f p out s.recorded with
+    | .ok r => s!"d:{r}" | .error _ => "d:err"
+  | .settle => match settle s with
+    | some (_, amt) => s!"s:{amt}" | none => "s:err"
+
+/-- run a history with the model's `step`; `none` when the escrow would leave the `u64` range
+(outside the protocol: the harness keeps token balances in real SPL accounts). -/
+def histRun : Settle → List Op → List String → Option (Settle × List String)
+  | s, [], acc => some (s, acc.reverse)
+  | s, op :: ops, acc =>
+    let s' := step bfeeUnit s op
+    if s'.escrow < 2 ^ 64 then histRun s' ops (histLabel s op :: acc) else none
+
 def bfeeEngine (args : List String) : String :=
   match args with
   | ["compute", size, factor, pmin, _pmax] =>
@@ -56,6 +86,14 @@ def bfeeEngine (args : List String) : String :=
       (match settle ⟨recorded, escrow, vault⟩ with
        | some (s, amt) => s!"ok {amt} {s.recorded} {s.escrow} {s.vault}" | none => "err Transfer")
     | _ => "bad-op"
+  | "hist" :: escrow :: vault :: n :: rest =>
+    match allNat [escrow, vault, n], pHistOps rest with
+    | some [escrow, vault, n], some ops =>
+      if ops.length ≠ n ∨ escrow ≥ 2 ^ 64 ∨ vault ≥ 2 ^ 64 then "bad-op" else
+      (match histRun ⟨0, escrow, vault⟩ ops [] with
+       | none => "bad-op"
+       | some (s, labels) => s!"ok {s.recorded} {s.escrow} {s.vault} | {joinSp labels}")
+    | _, _ => "bad-op"
   | ["settlex", accounts, recorded, escrow, vault, times] =>
     match allNat [accounts, recorded, escrow, vault, times] with
     | some [accounts, recorded, escrow, vault, times] =>
